@@ -115,6 +115,10 @@ def call_func(ex, name, args, kwargs, e):
         ex.assume(st.t("ch.nameplates").none(lambda r: r.mailbox_id == g))
         ex.oracles.append(("generate_mailbox_id", g))
         return VZ(g, "str")
+    if name == "bytes_to_dict":
+        if isinstance(args[0], VMsg):
+            return args[0]          # A9: the payload is the UTF-8 JSON text of an object
+        raise Unsupported("bytes_to_dict of %r" % (args[0],))
     if name == "dict_to_bytes":
         from . import callbacks
         if isinstance(args[0], callbacks.VFrameMap):
